@@ -519,7 +519,7 @@ for _n, _f, _dom in [
     ("arccsch", lambda a: np.arcsinh(1 / a), _far(0.2)),
 ]:
     _reg(EW1(_n, _f, _n, spellings=("f",), domain=_dom))
-_reg(EW1("sinc", np.sinc, "sinc", domain=lambda a: np.abs(a) > 0.1))
+_reg(EW1("sinc", np.sinc, "sinc", spellings=("f",), domain=lambda a: np.abs(a) > 0.1))  # np.sinc is a plain function, not a ufunc MyGrad overrides
 _reg(EW2("arctan2", np.arctan2, "arctan2", domain=lambda a, b: np.all(a * a + b * b > 0.05)))
 _reg(EW2("logaddexp", np.logaddexp, "logaddexp", domain=lambda a, b: np.all(np.abs(a) < 20) and np.all(np.abs(b) < 20)))
 _reg(EW2("logaddexp2", np.logaddexp2, "logaddexp2", domain=lambda a, b: np.all(np.abs(a) < 20) and np.all(np.abs(b) < 20)))
